@@ -73,14 +73,15 @@ Proof. exact Proofs.compact_no_partial_publish. Qed.
 Print Assumptions compact_no_partial_publish.
 
 (** Histories that start with a (re)open in ANY local state (in step, meta
-    directory lost, older database file): an acknowledged SyncAndWait — under any
-    fault schedule, including faults on the calls made by init's
-    checkDatabaseBehindReplica — means local and remote positions are EQUAL, all
-    local files above the retention floor are stored, the remote level 0 is one
-    run after every client call. *)
-Theorem ack_means_in_sync : forall fl b s la, breach fl b ->
-  maxl (local_after_init b s) <= maxl la ->
-  let '(b', o) := sync_wait b s la in
+    directory lost, older database file, newest local file lost): an acknowledged
+    SyncAndWait — under any fault schedule, including faults on the calls made by
+    init's checkDatabaseBehindReplica — means local and remote positions are
+    EQUAL, all local files above the retention floor are stored, the remote
+    level 0 is one run after every client call.  [sized]: whether the replica's
+    listing reports object sizes. *)
+Theorem ack_means_in_sync : forall sized fl b s la, breach sized fl b ->
+  maxl (local_after_init sized b s) <= maxl la ->
+  let '(b', o) := sync_wait sized b s la in
   so_err o = E_NIL ->
   so_pos o = maxl (u_remote (b_u b')) /\ maxl (u_remote (b_u b')) = maxl la /\ u_local (b_u b') = la /\
   (forall t, In t la -> fl <= t -> In t (u_remote (b_u b'))) /\
@@ -90,28 +91,44 @@ Print Assumptions ack_means_in_sync.
 
 (** A failed first client call of init (the level-0 listing) always surfaces as
     an error of SyncAndWait and leaves init to be retried. *)
-Theorem init_listing_error_propagates : forall b s la o0,
+Theorem init_listing_error_propagates : forall sized b s la o0,
   b_init b = false -> b_corrupt b = false ->
   s = o0 :: nil \/ (exists tl, s = o0 :: tl) -> o0 <> Ok ->
-  so_err (snd (sync_wait b s la)) = E_CLIENT /\ b_init (fst (sync_wait b s la)) = false.
+  so_err (snd (sync_wait sized b s la)) = E_CLIENT /\ b_init (fst (sync_wait sized b s la)) = false.
 Proof. exact Proofs.init_listing_error_propagates. Qed.
 Print Assumptions init_listing_error_propagates.
 
-(** Once faults have stopped, the next SyncAndWait after a (re)open succeeds
-    (unless the local baseline file is corrupt, see the refuted lemma below). *)
-Theorem catch_up_after_reopen : forall fl b la, breach fl b ->
-  b_corrupt b = false ->
+(** With sizes in the listing (fix 086c0cc) a short read of the fetched baseline
+    file is an error: nothing is published locally and init is retried. *)
+Theorem baseline_short_read_is_error : forall b k tl la,
+  b_init b = false -> b_corrupt b = false ->
+  maxl (u_remote (b_u b)) <> 0 -> maxl (u_local (b_u b)) < maxl (u_remote (b_u b)) ->
+  let r := sync_wait true b (Ok :: ShortRead k :: tl) la in
+  so_err (snd r) = E_CLIENT /\ b_init (fst r) = false /\ b_corrupt (fst r) = false /\ u_local (b_u (fst r)) = [].
+Proof. exact Proofs.baseline_short_read_is_error. Qed.
+Print Assumptions baseline_short_read_is_error.
+
+(** ... so the "corrupt local baseline" state is unreachable, for every history
+    and every fault schedule. *)
+Theorem never_corrupt : forall fl b, breach true fl b -> b_corrupt b = false.
+Proof. exact Proofs.never_corrupt. Qed.
+Print Assumptions never_corrupt.
+
+(** Once faults have stopped, the next SyncAndWait after a (re)open succeeds —
+    after EVERY history of fault schedules, with no exception. *)
+Theorem catch_up_after_reopen : forall fl b la, breach true fl b ->
   maxl la <> 0 ->
-  maxl (local_after_init b []) <= maxl la ->
   (forall t, maxl (u_remote (b_u b)) < t <= maxl la -> In t la) ->
-  so_err (snd (sync_wait b [] la)) = E_NIL.
+  so_err (snd (sync_wait true b [] la)) = E_NIL.
 Proof. exact Proofs.catch_up_after_reopen. Qed.
 Print Assumptions catch_up_after_reopen.
 
-(** Finding (known finding C05/truncated-baseline-...): a short read of the
-    baseline file fetched by checkDatabaseBehindReplica is published locally and
-    every later SyncAndWait fails, faults or not. *)
+(** The repaired defect (fixed by 086c0cc), as a statement about a client whose
+    listing reports Size 0 (no length check = the behaviour before the fix): a
+    short read of the baseline is published locally and every later SyncAndWait
+    fails, faults or not. *)
 Theorem catch_up_after_short_baseline_read_refuted :
-  exists fl b, breach fl b /\ forall la, so_err (snd (sync_wait b [] la)) <> E_NIL /\ fst (sync_wait b [] la) = b.
+  exists fl b, breach false fl b /\
+    forall la, so_err (snd (sync_wait false b [] la)) <> E_NIL /\ fst (sync_wait false b [] la) = b.
 Proof. exact BProofs.catch_up_after_short_baseline_read_refuted. Qed.
 Print Assumptions catch_up_after_short_baseline_read_refuted.
